@@ -27,10 +27,11 @@ cp "$SRC/patch.diff" "$SRC/demo.py" "$DST/"
 [ -f "$SRC/note.txt" ] && cp "$SRC/note.txt" "$DST/"
 results=""
 for C in $CHECKS; do
-  out=$(cd /verif && VERIF_REPO="$WT" ./check "$C" --tier quick 2>&1); rc=$?
+  out=$(cd /verif && VERIF_EVIDENCE_DIR=/tmp/mut-evidence VERIF_REPLAY_DIR=/tmp/mut-replays VERIF_REPO="$WT" ./check "$C" --tier quick 2>&1); rc=$?
   sig=$(echo "$out" | grep -A1 "^VIOLATION" | grep signature | head -3 | tr '\n' ';')
   echo "  check $C rc=$rc $sig"
-  results="$results {\"check\": \"$C\", \"rc\": $rc},"
+  sigj=$(echo "$out" | grep signature | head -4 | sed 's/^ *signature: //' | python3 -c "import sys,json; print(json.dumps([l.strip() for l in sys.stdin]))")
+  results="$results {\"check\": \"$C\", \"rc\": $rc, \"caught\": $( [ $rc = 1 ] && echo true || echo false ), \"signatures\": $sigj},"
 done
 git checkout -q -- . ; rm -f coverage.xml; git status --short | grep -v '^?? out/' | head -3
 cat > "$DST/meta.json" <<EOF
@@ -43,5 +44,4 @@ cat > "$DST/meta.json" <<EOF
  "checks_run": [${results%,}]
 }
 EOF
-cd /verif && ./check "$P" --tier quick >/dev/null 2>&1   # restore evidence from the real tree
 exit 0
